@@ -195,11 +195,15 @@ theorem connect_body_eq (cs : Bool) (ka : UInt16) (ps : List PropOcc) (cid : Byt
     List.append_nil]
   cases will <;> cases user <;> cases pass <;> simp
 
-theorem D_connect (cs : Bool) (ka : UInt16) (ps : List PropOcc) (cid : Bytes) (will : Option SWill)
-    (user pass : Option Bytes) (hl : (SPacket.connect cs ka ps cid will user pass).Legal) :
+/-- the decoder on a legal CONNECT; the remaining-length bound is used only for the two property
+sections, so four bytes of slack are harmless (used by the C01 substitution argument, where the
+`MQTT`/5 twin of a packet with a shorter protocol name is up to four bytes longer) -/
+theorem D_connect_core (cs : Bool) (ka : UInt16) (ps : List PropOcc) (cid : Bytes) (will : Option SWill)
+    (user pass : Option Bytes) (hleg : (SPacket.connect cs ka ps cid will user pass).legal = true)
+    (hlen : (SPacket.connect cs ka ps cid will user pass).body.length < 268435456 + 4) :
     ∃ q, frameOutcome 0x10 (SPacket.connect cs ka ps cid will user pass).body = .pkt (.connect q)
       ∧ (Packet.connect q).view = (SPacket.connect cs ka ps cid will user pass).view := by
-  obtain ⟨hleg, hlen⟩ := hl
+  have hm5 : (encBin Connect.mqtt5).length = 6 := rfl
   simp only [SPacket.legal, Bool.and_eq_true, SPacket.strOK, decide_eq_true_eq] at hleg
   obtain ⟨⟨⟨⟨hps, hcid⟩, hwill⟩, huser⟩, hpass⟩ := hleg
   have hwq : ∀ w, will = some w → w.qos ≤ 2 := by
@@ -340,4 +344,13 @@ theorem D_connect (cs : Bool) (ka : UInt16) (ps : List PropOcc) (cid : Bytes) (w
     · rw [wsubs0, hbz.2.2.2.2.2.2.2.2]
     · rw [walias0, hbz.2.2.2.2.2.2.2.1]; rfl
 
+end Mq
+
+namespace Mq
+open Spec (SPacket SWill)
+theorem D_connect (cs : Bool) (ka : UInt16) (ps : List PropOcc) (cid : Bytes) (will : Option SWill)
+    (user pass : Option Bytes) (hl : (SPacket.connect cs ka ps cid will user pass).Legal) :
+    ∃ q, frameOutcome 0x10 (SPacket.connect cs ka ps cid will user pass).body = .pkt (.connect q)
+      ∧ (Packet.connect q).view = (SPacket.connect cs ka ps cid will user pass).view :=
+  D_connect_core cs ka ps cid will user pass hl.1 (by have := hl.2; omega)
 end Mq
